@@ -173,3 +173,406 @@ def gen_Units(repo):
                  (k, lean_list(["(%s, (%d : Int))" % (lean_str(f), m) for f, m in mults[k]])))
     L.append("\nend Strengths.Gen")
     return "\n".join(L) + "\n"
+
+
+# =============================================================================================
+# G5 + G6 (Python side): index formulas and range predicates
+# =============================================================================================
+def _find_return_in_branch(src, fn, test_pred):
+    """the `return` expression inside the first `if/elif` of fn whose test satisfies test_pred (on source text),
+    or, when test_pred is None, the last top-level return"""
+    def visit_if(node):
+        while isinstance(node, ast.If):
+            if test_pred is not None and test_pred(re.sub(r"\s+", "", src.seg(node.test))):
+                for s in node.body:
+                    if isinstance(s, ast.Return):
+                        return s.value
+            if len(node.orelse) == 1 and isinstance(node.orelse[0], ast.If):
+                node = node.orelse[0]
+            else:
+                if test_pred is not None and test_pred("else"):
+                    for s in node.orelse:
+                        if isinstance(s, ast.Return):
+                            return s.value
+                return None
+        return None
+    for st in fn.body:
+        if isinstance(st, ast.If):
+            r = visit_if(st)
+            if r is not None:
+                return r
+    if test_pred is None:
+        for st in reversed(fn.body):
+            if isinstance(st, ast.Return):
+                return st.value
+    raise AnchorLost("%s:%s return pattern" % (src.rel, fn.name))
+
+
+def _assign_value(src, fn, name):
+    for n in ast.walk(fn):
+        if isinstance(n, ast.Assign) and len(n.targets) == 1 and isinstance(n.targets[0], ast.Name) and n.targets[0].id == name:
+            return n.value
+    raise AnchorLost("%s:%s assignment to %s" % (src.rel, fn.name, name))
+
+
+@group
+def gen_IndexPy(repo):
+    grid = PySrc(repo, "src/strengths/rdgridspace.py")
+    names_arr = {"position[0]": "x", "position[1]": "y", "position[2]": "z", "self.w": "w", "self.h": "h", "self.d": "d"}
+    names_obj = {"position.x": "x", "position.y": "y", "position.z": "z", "self.w": "w", "self.h": "h", "self.d": "d"}
+    gci = grid.func("get_cell_index", "RDGridSpace")
+    e_arr = _find_return_in_branch(grid, gci, lambda t: t == "isarray(position)")
+    e_obj = _find_return_in_branch(grid, gci, lambda t: t == "else")
+    e_num = _find_return_in_branch(grid, gci, lambda t: t == "isnumber(position)")
+    idx_arr = ExprTr(grid, names_arr).tr(e_arr)
+    idx_obj = ExprTr(grid, names_obj).tr(e_obj)
+    idx_num = ExprTr(grid, {"position": "p"}).tr(e_num)
+    # the guard at the top of get_cell_index / get_cell_coordinates: `if not self.is_within_bounds(..): raise`
+    def has_guard(fn, arg):
+        for st in fn.body:
+            if isinstance(st, ast.If) and re.sub(r"\s+", "", grid.seg(st.test)) == "notself.is_within_bounds(%s)" % arg \
+                    and any(isinstance(b, ast.Raise) for b in st.body):
+                return True
+        return False
+    gcc = grid.func("get_cell_coordinates", "RDGridSpace")
+    guard_idx = has_guard(gci, "position")
+    guard_coord = has_guard(gcc, "cell_index")
+    names_c = {"cell_index": "i", "self.w": "w", "self.h": "h", "self.d": "d"}
+    cx = ExprTr(grid, names_c).tr(_assign_value(grid, gcc, "x"))
+    cy = ExprTr(grid, names_c).tr(_assign_value(grid, gcc, "y"))
+    cz = ExprTr(grid, names_c).tr(_assign_value(grid, gcc, "z"))
+    iwb = grid.func("is_within_bounds", "RDGridSpace")
+    b_num = ExprTr(grid, {"position": "p", "self.size()": "size"}).tr(
+        _find_return_in_branch(grid, iwb, lambda t: t == "isnumber(position)"))
+    b_arr = ExprTr(grid, names_arr).tr(_find_return_in_branch(grid, iwb, lambda t: t == "isarray(position)"))
+    b_obj = ExprTr(grid, names_obj).tr(_find_return_in_branch(grid, iwb, lambda t: t == "else"))
+    size = grid.func("size", "RDGridSpace")
+    size_e = ExprTr(grid, {"self.w": "w", "self.h": "h", "self.d": "d"}).tr(size.body[-1].value)
+
+    rds = PySrc(repo, "src/strengths/rdsystem.py")
+    gsi = rds.func("get_state_index", "RDSystem")
+    st_e = ExprTr(rds, {"species_index": "s", "self.space.size()": "n", "cell_index": "c"}).tr(
+        _find_return_in_branch(rds, gsi, None))
+    ssz = rds.func("state_size", "RDSystem")
+    ssz_e = ExprTr(rds, {"self.space.size()": "n", "self.network.nspecies()": "ns"}).tr(ssz.body[-1].value)
+
+    out = PySrc(repo, "src/strengths/rdoutput.py")
+    gtp = out.func("get_trajectory_point", "RDTrajectory")
+    tp_e = None
+    for n in ast.walk(gtp):
+        if isinstance(n, ast.Return) and isinstance(n.value, ast.Call) and getattr(n.value.func, "attr", "") == "get_at":
+            tp_e = ExprTr(out, {"sample_index": "k", "self.nspecies()": "ns", "self.ncells()": "n", "species_index": "s",
+                                "cell_index": "c"}).tr(n.value.args[0])
+    if tp_e is None:
+        raise AnchorLost("rdoutput.py:get_trajectory_point data.get_at(index)")
+    # reshape tuples used by get_trajectory / get_state
+    def reshape_args(fn):
+        res = []
+        for n in ast.walk(fn):
+            if isinstance(n, ast.Call) and getattr(n.func, "attr", "") == "reshape" and len(n.args) == 1 and isinstance(n.args[0], ast.Tuple):
+                res.append([re.sub(r"\s+", "", out.seg(e)) for e in n.args[0].elts])
+        return res
+    rs_traj = reshape_args(out.func("get_trajectory", "RDTrajectory"))
+    rs_state = reshape_args(out.func("get_state", "RDTrajectory"))
+    if not rs_traj or not rs_state:
+        raise AnchorLost("rdoutput.py:reshape tuples")
+
+    graph = PySrc(repo, "src/strengths/rdgraphspace.py")
+    L = ["namespace Strengths.Gen\n"]
+    L.append("/-- `RDGridSpace.size` -/\ndef gridSize (w h d : Int) : Int := %s\n" % size_e)
+    L.append("/-- `RDGridSpace.get_cell_index`, tuple/list branch -/\ndef cellIndexArr (w h x y z : Int) : Int := %s" % idx_arr)
+    L.append("/-- `RDGridSpace.get_cell_index`, object-with-x,y,z branch -/\ndef cellIndexObj (w h x y z : Int) : Int := %s" % idx_obj)
+    L.append("/-- `RDGridSpace.get_cell_index`, number branch -/\ndef cellIndexNum (p : Int) : Int := %s" % idx_num)
+    L.append("/-- both accessors start with `if not self.is_within_bounds(..) : raise` -/")
+    L.append("def cellIndexGuarded : Bool := %s" % ("true" if guard_idx else "false"))
+    L.append("def cellCoordsGuarded : Bool := %s\n" % ("true" if guard_coord else "false"))
+    L.append("/-- `RDGridSpace.get_cell_coordinates` -/")
+    L.append("def cellCoordX (w h i : Int) : Int := %s" % cx)
+    L.append("def cellCoordY (w h i : Int) : Int := %s" % cy)
+    L.append("def cellCoordZ (w h i : Int) : Int := %s\n" % cz)
+    L.append("/-- `RDGridSpace.is_within_bounds`, the three position forms -/")
+    L.append("def withinBoundsNum (size p : Int) : Bool := %s" % b_num)
+    L.append("def withinBoundsArr (w h d x y z : Int) : Bool := %s" % b_arr)
+    L.append("def withinBoundsObj (w h d x y z : Int) : Bool := %s\n" % b_obj)
+    L.append("/-- `RDSystem.get_state_index` (s = species index, n = number of cells, c = cell index) -/")
+    L.append("def stateIndex (n s c : Int) : Int := %s" % st_e)
+    L.append("/-- `RDSystem.state_size` -/\ndef stateSize (n ns : Int) : Int := %s\n" % ssz_e)
+    L.append("/-- `RDTrajectory.get_trajectory_point` flat index (k = sample, ns = #species, n = #cells) -/")
+    L.append("def trajPointIndex (ns n k s c : Int) : Int := %s" % tp_e)
+    L.append("/-- reshape tuples of `get_trajectory` and `get_state` -/")
+    L.append("def reshapeTrajectory : List (List String) := %s" %
+             lean_list([lean_list([lean_str(x) for x in t]) for t in rs_traj]))
+    L.append("def reshapeState : List (List String) := %s" %
+             lean_list([lean_list([lean_str(x) for x in t]) for t in rs_state]))
+    L.append("\nend Strengths.Gen")
+    return "\n".join(L) + "\n"
+
+
+# =============================================================================================
+# G5 + G7 (C++ side): neighbour tables, wrap lines, index formulas, conditions, call orders
+# =============================================================================================
+def _cpp(repo, name):
+    path = os.path.join(repo, ENGINE_SRC, name)
+    try:
+        with open(path, encoding="utf-8", errors="replace") as f:
+            return strip_cpp_comments(f.read())
+    except OSError:
+        raise AnchorLost("missing " + name)
+
+
+def _subscripts(text):
+    """every `ident[expr]` occurrence (balanced brackets), normalised (blanks removed)"""
+    out = []
+    for m in re.finditer(r"([A-Za-z_][A-Za-z_0-9]*)\s*\[", text):
+        i = m.end() - 1
+        depth, j = 0, i
+        while j < len(text):
+            if text[j] == "[":
+                depth += 1
+            elif text[j] == "]":
+                depth -= 1
+                if depth == 0:
+                    break
+            j += 1
+        expr = re.sub(r"\s+", "", text[i + 1:j])
+        # chained subscripts a[i][j]: record the second level against a[i]
+        name = m.group(1)
+        out.append((name, expr))
+        k = j + 1
+        while k < len(text) and text[k] == "[":
+            depth, j2 = 0, k
+            while j2 < len(text):
+                if text[j2] == "[":
+                    depth += 1
+                elif text[j2] == "]":
+                    depth -= 1
+                    if depth == 0:
+                        break
+                j2 += 1
+            out.append((name + "[" + expr + "]", re.sub(r"\s+", "", text[k + 1:j2])))
+            expr = expr + "][" + re.sub(r"\s+", "", text[k + 1:j2])
+            k = j2 + 1
+    return out
+
+
+def _iterate_order(text, cls):
+    m = re.search(r"class\s+%s\b" % cls, text)
+    if not m:
+        raise AnchorLost("class " + cls)
+    body = cpp_function_body(text[m.start():], r"virtual\s+bool\s+Iterate\s*\(\s*\)\s*")
+    stmts = []
+    depth = 0
+    cur = ""
+    for ch in body:
+        if ch in "{}":
+            if cur.strip():
+                stmts.append(re.sub(r"\s+", "", cur))
+            cur = ""
+            stmts.append(ch)
+            continue
+        if ch == ";":
+            stmts.append(re.sub(r"\s+", "", cur))
+            cur = ""
+        else:
+            cur += ch
+    if cur.strip():
+        stmts.append(re.sub(r"\s+", "", cur))
+    return [s for s in stmts if s]
+
+
+@group
+def gen_EngineCpp(repo):
+    base3 = _cpp(repo, "SimulationAlgorithm3DBase.hpp")
+    baseg = _cpp(repo, "SimulationAlgorithmGraphBase.hpp")
+    eng = _cpp(repo, "engine.cpp")
+    L = ["namespace Strengths.Gen\n"]
+
+    # ---- GetNeighborIndex
+    body = cpp_function_body(base3, r"int\s+GetNeighborIndex\s*\([^)]*\)\s*")
+    deltas = []
+    for m in re.finditer(r"case\s+(\d+)\s*:\s*([xyz])n\s*([-+])=\s*(\d+)\s*;\s*break\s*;", body):
+        deltas.append((int(m.group(1)), "xyz".index(m.group(2)), int(m.group(3) + m.group(4))))
+    if len(deltas) != len(re.findall(r"\bcase\b", body)) or not deltas:
+        raise AnchorLost("GetNeighborIndex switch cases")
+    wraps = {}
+    for m in re.finditer(r"if\s*\(\s*boundary_conditions\[(\d)\]\s*==\s*(\d+)\s*\)\s*([xyz])n\s*=\s*([^;]+);", body):
+        ax = int(m.group(1))
+        if "xyz"[ax] != m.group(3):
+            raise AnchorLost("GetNeighborIndex wrap line axis mismatch")
+        size = "whd"[ax]
+        wraps[ax] = (int(m.group(2)), CppExpr(m.group(4), {size: "n", m.group(3) + "n": "c"}).parse())
+    if sorted(wraps) != [0, 1, 2]:
+        raise AnchorLost("GetNeighborIndex wrap lines")
+    m = re.search(r"if\s*\(([^;{}]*?)\)\s*return\s+([^;]+);\s*else\s+return\s+(-?\d+)\s*;", body, flags=re.S)
+    if not m:
+        raise AnchorLost("GetNeighborIndex range test / return")
+    nm = {"xn": "x", "yn": "y", "zn": "z", "w": "w", "h": "h", "d": "d"}
+    inrange = CppExpr(m.group(1), nm).parse()
+    retidx = CppExpr(m.group(2), nm).parse()
+    L.append("/-- `GetNeighborIndex`: (direction, axis 0/1/2, delta) of the switch -/")
+    L.append("def dirDelta : List (Nat × Nat × Int) := %s" % lean_list(["(%d, %d, (%d : Int))" % t for t in sorted(deltas)]))
+    L.append("/-- value of `boundary_conditions[axis]` that enables wrapping, per axis -/")
+    L.append("def wrapFlag : List Int := %s" % lean_list(["(%d : Int)" % wraps[a][0] for a in range(3)]))
+    for a in range(3):
+        L.append("/-- wrap line of axis %d: new coordinate from size `n` and shifted coordinate `c` -/" % a)
+        L.append("def wrapAxis%d (n c : Int) : Int := %s" % (a, wraps[a][1]))
+    L.append("def nbrInRange (w h d x y z : Int) : Bool := %s" % inrange)
+    L.append("def nbrIndex (w h x y z : Int) : Int := %s" % retidx)
+    L.append("def nbrNone : Int := (%s : Int)\n" % m.group(3))
+
+    # ---- BuildMeshNeighbors coordinate extraction and table subscript
+    body = cpp_function_body(base3, r"void\s+BuildMeshNeighbors\s*\(\s*\)\s*")
+    cm = {}
+    for m in re.finditer(r"int\s+([xyz])coord\s*=\s*([^;]+);", body):
+        cm[m.group(1)] = CppExpr(m.group(2), {"i": "i", "w": "w", "h": "h"}).parse()
+    if sorted(cm) != ["x", "y", "z"]:
+        raise AnchorLost("BuildMeshNeighbors coordinates")
+    m = re.search(r"mesh_neighbors\[([^\]]+)\]\s*=\s*GetNeighborIndex\(\s*xcoord\s*,\s*ycoord\s*,\s*zcoord\s*,\s*n\s*\)", body)
+    if not m:
+        raise AnchorLost("BuildMeshNeighbors table store")
+    L.append("/-- `BuildMeshNeighbors`: coordinates of mesh i and slot of (i, direction n) -/")
+    L.append("def meshX (w h i : Int) : Int := %s" % cm["x"])
+    L.append("def meshY (w h i : Int) : Int := %s" % cm["y"])
+    L.append("def meshZ (w h i : Int) : Int := %s" % cm["z"])
+    L.append("def nbrSlot (i n : Int) : Int := %s\n" % CppExpr(m.group(1), {"i": "i", "n": "n"}).parse())
+
+    # ---- opposed_direction
+    m = re.search(r"opposed_direction\s*=\s*std::vector<int>\s*\{([^}]*)\}", base3)
+    if not m:
+        raise AnchorLost("opposed_direction table")
+    opp = [int(x) for x in m.group(1).split(",")]
+    L.append("def oppDir : List Nat := %s\n" % lean_list([str(x) for x in opp]))
+
+    # ---- sampling / completion conditions (both base classes must agree textually)
+    def sampling(text, which):
+        res = {}
+        b = cpp_function_body(text, r"void\s+CheckTMax\s*\(\s*\)\s*")
+        m = re.search(r"if\s*\((.*?)\)\s*\{", b, flags=re.S)
+        if not m:
+            raise AnchorLost(which + " CheckTMax condition")
+        res["tmax"] = re.sub(r"\s+", "", m.group(1))
+        b = cpp_function_body(text, r"void\s+SampleOnTSample\s*\(\s*\)\s*")
+        m = re.search(r"while\s*\((.*?)\)\s*\{(.*?)\}", b, flags=re.S)
+        if not m:
+            raise AnchorLost(which + " SampleOnTSample loop")
+        res["tsample_conds"] = [re.sub(r"\s+", "", c) for c in m.group(1).split("&&")]
+        res["tsample_body"] = [re.sub(r"\s+", "", s) for s in m.group(2).split(";") if s.strip()]
+        b = cpp_function_body(text, r"void\s+SampleOnInterval\s*\(\s*\)\s*")
+        m = re.search(r"double\s+tsi_ratio\s*=\s*([^;]+);\s*if\s*\((.*?)\)\s*\{(.*?)\}", b, flags=re.S)
+        if not m:
+            raise AnchorLost(which + " SampleOnInterval")
+        res["interval_ratio"] = re.sub(r"\s+", "", m.group(1))
+        res["interval_cond"] = re.sub(r"\s+", "", m.group(2))
+        res["interval_body"] = [re.sub(r"\s+", "", s) for s in m.group(3).split(";") if s.strip()]
+        b = cpp_function_body(text, r"void\s+SamplingStep\s*\(\s*\)\s*")
+        res["dispatch"] = [(int(a), re.sub(r"\s+", "", c)) for a, c in re.findall(r"case\s+(\d+)\s*:\s*(.*?)break\s*;", b, flags=re.S)]
+        b = cpp_function_body(text, r"void\s+Sample\s*\(\s*\)\s*")
+        m = re.search(r"if\s*\((.*?)\)\s*\{(.*?)\}", b, flags=re.S)
+        if not m:
+            raise AnchorLost(which + " Sample")
+        res["sample_cond"] = re.sub(r"\s+", "", m.group(1))
+        res["sample_body"] = [re.sub(r"\s+", "", s) for s in m.group(2).split(";") if s.strip()]
+        b = cpp_function_body(text, r"double\s+GetProgress\s*\(\s*\)\s*")
+        res["progress"] = re.sub(r"\s+", "", b)
+        return res
+    s3, sg = sampling(base3, "3DBase"), sampling(baseg, "GraphBase")
+
+    def strs(l):
+        return lean_list([lean_str(x) for x in l])
+    for tag, s in (("Grid", s3), ("Graph", sg)):
+        L.append("def tMaxCond%s : String := %s" % (tag, lean_str(s["tmax"])))
+        L.append("def tSampleLoopConds%s : List String := %s" % (tag, strs(s["tsample_conds"])))
+        L.append("def tSampleLoopBody%s : List String := %s" % (tag, strs(s["tsample_body"])))
+        L.append("def intervalRatio%s : String := %s" % (tag, lean_str(s["interval_ratio"])))
+        L.append("def intervalCond%s : String := %s" % (tag, lean_str(s["interval_cond"])))
+        L.append("def intervalBody%s : List String := %s" % (tag, strs(s["interval_body"])))
+        L.append("def samplingDispatch%s : List (Nat × String) := %s" %
+                 (tag, lean_list(["(%d, %s)" % (a, lean_str(c)) for a, c in s["dispatch"]])))
+        L.append("def sampleCond%s : String := %s" % (tag, lean_str(s["sample_cond"])))
+        L.append("def sampleBody%s : List String := %s" % (tag, strs(s["sample_body"])))
+        L.append("def progressBody%s : String := %s\n" % (tag, lean_str(s["progress"])))
+
+    # ---- Iterate bodies of the six algorithms
+    for fname, cls in (("Euler3D.hpp", "Euler3D"), ("TauLeap3D.hpp", "TauLeap3D"), ("Gillespie3D.hpp", "Gillespie3D"),
+                       ("EulerGraph.hpp", "EulerGraph"), ("TauLeapGraph.hpp", "TauLeapGraph"), ("GillespieGraph.hpp", "GillespieGraph")):
+        L.append("def iterate%s : List String := %s" % (cls, strs(_iterate_order(_cpp(repo, fname), cls))))
+    L.append("")
+
+    # ---- engine.cpp: accepted strings and codes
+    def chain(fn_regex, var):
+        b = cpp_function_body(eng, fn_regex)
+        return re.findall(r"CompareStr\(\s*%s\s*,\s*\"([^\"]*)\"\s*\)\)?\s*(?:\{?\s*)?(\w+(?:\[\d\])?)\s*=\s*(?:new\s+)?(\w+)" % var, b)
+    for tag, fr in (("Grid", r"int\s+engineexport_initialize_grid\s*\("), ("Graph", r"int\s+engineexport_initialize_graph\s*\(")):
+        pol = chain(fr, "sampling_policy")
+        if not pol:
+            raise AnchorLost("engine.cpp sampling policy chain " + tag)
+        L.append("def cppPolicies%s : List (String × Nat) := %s" %
+                 (tag, lean_list(["(%s, %s)" % (lean_str(a), c) for a, _, c in pol])))
+        opt = chain(fr, "option")
+        if not opt:
+            raise AnchorLost("engine.cpp option chain " + tag)
+        L.append("def cppOptions%s : List (String × String) := %s" %
+                 (tag, lean_list(["(%s, %s)" % (lean_str(a), lean_str(c)) for a, _, c in opt])))
+        b = cpp_function_body(eng, fr)
+        modes = re.findall(r"CompareStr\(\s*init_state_processing\s*,\s*\"([^\"]*)\"\s*\)", b)
+        L.append("def cppModes%s : List String := %s" % (tag, strs(modes)))
+        # the processing branches, as normalised condition text in order
+        conds = [re.sub(r"\s+", "", c) for c in re.findall(r"(?:else\s+)?if\s*\(\s*(CompareStr\(\s*init_state_processing.*?)\)\s*\{", b, flags=re.S)]
+        L.append("def cppModeConds%s : List String := %s" % (tag, strs(conds)))
+        # which branches transpose the species-major input
+        branches = re.split(r"(?:else\s+)?if\s*\(\s*CompareStr\(\s*init_state_processing", b)[1:]
+        tr = []
+        for br in branches:
+            head = br.split("{", 1)[1] if "{" in br else br
+            blk = head.split("}", 1)[0]
+            tr.append("SpeciesFirstToMeshFirstArray" in blk)
+        L.append("def cppModeTransposes%s : List Bool := %s" % (tag, lean_list(["true" if t else "false" for t in tr])))
+    bc = re.findall(r"CompareStr\(\s*boundary_conditions_x\s*,\s*\"([^\"]*)\"\s*\)\)\s*boundary_conditions\[0\]\s*=\s*(\d+)", eng)
+    if not bc:
+        raise AnchorLost("engine.cpp boundary condition chain")
+    L.append("def cppBoundary : List (String × Int) := %s\n" % lean_list(["(%s, (%s : Int))" % (lean_str(a), c) for a, c in bc]))
+
+    # ---- transposition and export formulas
+    b = cpp_function_body(eng, r"SpeciesFirstToMeshFirstArray\s*\([^)]*\)\s*")
+    m = re.search(r"mesh_first_array\[([^\]]+)\]\s*=\s*species_first_array\[([^\]]+)\]", b)
+    if not m:
+        raise AnchorLost("SpeciesFirstToMeshFirstArray assignment")
+    nm = {"i": "i", "s": "s", "n_species": "ns", "n_meshes": "n"}
+    L.append("/-- `SpeciesFirstToMeshFirstArray`: dst[dstIdx] = src[srcIdx] -/")
+    L.append("def transposeDst (ns n s i : Int) : Int := %s" % CppExpr(m.group(1), nm).parse())
+    L.append("def transposeSrc (ns n s i : Int) : Int := %s" % CppExpr(m.group(2), nm).parse())
+    b = cpp_function_body(eng, r"int\s+engineexport_get_trajectory\s*\([^)]*\)\s*")
+    ms = re.findall(r"trajectory_data\[([^\]]+)\]\s*=\s*trajectory_data_vec\[n\]\[([^\]]+)\]", b)
+    if len(ms) != 2 or ms[0] != ms[1]:
+        raise AnchorLost("engineexport_get_trajectory assignments (grid and graph branch must agree)")
+    nm2 = {"i": "i", "s": "s", "n": "k", "n_species": "ns", "n_meshes": "n"}
+    L.append("/-- `engineexport_get_trajectory`: out[exportDst] = sample_k[exportSrc] -/")
+    L.append("def exportDst (ns n k s i : Int) : Int := %s" % CppExpr(ms[0][0], nm2).parse())
+    L.append("def exportSrc (ns n s i : Int) : Int := %s" % CppExpr(ms[0][1], nm2).parse())
+    b = cpp_function_body(eng, r"int\s+engineexport_get_state\s*\([^)]*\)\s*")
+    ms = re.findall(r"state_data\[([^\]]+)\]\s*=\s*state_data_vec\[([^\]]+)\]", b)
+    if len(ms) != 2 or ms[0] != ms[1]:
+        raise AnchorLost("engineexport_get_state assignments")
+    L.append("def stateExportDst (ns n s i : Int) : Int := %s" % CppExpr(ms[0][0], nm2).parse())
+    L.append("def stateExportSrc (ns n s i : Int) : Int := %s\n" % CppExpr(ms[0][1], nm2).parse())
+
+    # ---- finalize / run / iterate_n skeletons (normalised statement text)
+    for fn in ("engineexport_finalize", "engineexport_iterate", "engineexport_iterate_n", "engineexport_run", "engineexport_sample"):
+        b = cpp_function_body(eng, r"%s\s*\([^)]*\)\s*" % fn)
+        L.append("def body_%s : String := %s" % (fn, lean_str(re.sub(r"\s+", "", b))))
+    gl = re.findall(r"^(?:[A-Za-z_][\w:<>]*\s*\*?\s+\*?\s*)(global_\w+)\s*(?:=\s*([^;]+))?;", eng, flags=re.M)
+    L.append("def engineGlobals : List (String × String) := %s\n" %
+             lean_list(["(%s, %s)" % (lean_str(a), lean_str(b.strip())) for a, b in gl]))
+
+    # ---- subscript inventory (G5): every vec[expr] in every engine source file
+    inv = []
+    for fname in ("SimulationAlgorithm3DBase.hpp", "SimulationAlgorithmGraphBase.hpp", "Euler3D.hpp", "EulerGraph.hpp",
+                  "TauLeap3D.hpp", "TauLeapGraph.hpp", "Gillespie3D.hpp", "GillespieGraph.hpp", "engine.cpp"):
+        for name, expr in sorted(set(_subscripts(_cpp(repo, fname)))):
+            inv.append((fname, name, expr))
+    L.append("/-- every `vector[index]` occurrence in the engine sources: (file, vector, index expression) -/")
+    L.append("def subscripts : List (String × String × String) := [")
+    L.append(",\n".join("  (%s, %s, %s)" % (lean_str(a), lean_str(b), lean_str(c)) for a, b, c in inv))
+    L.append("]")
+    L.append("\nend Strengths.Gen")
+    return "\n".join(L) + "\n"
